@@ -1023,8 +1023,14 @@ impl<R: Read> RdbReader<R> {
     /// Read string
     fn read_string(&mut self) -> Result<Vec<u8>> {
         let len = self.read_length()?;
-        let mut buf = vec![0u8; len];
-        self.read_exact(&mut buf)?;
+        // Let the buffer grow as the bytes arrive: a damaged length field must not make the
+        // loader reserve gigabytes for a file of a few bytes
+        let mut buf = Vec::new();
+        (&mut self.reader).take(len as u64).read_to_end(&mut buf)
+            .map_err(|e| FerrousError::Io(e.to_string()))?;
+        if buf.len() != len {
+            return Err(FerrousError::Io("failed to fill whole buffer".to_string()));
+        }
         Ok(buf)
     }
     
